@@ -54,6 +54,8 @@ func c02(c *Ctx) {
 		u.compressAnnounce("C02.rsv1-negotiated")
 		u.runFull("C02.rsv1-negotiated")
 	}
+	r.Rule("C02.prepared-rendered-by-writer", "every cached variant of a PreparedMessage is produced by the library's own message writer on a private connection configured from the key (WriteMessage(pm.messageType, pm.data)): no second, hand-written encoder exists whose framing, masking or fragmentation could differ (same rule as C19.key-complete)")
+	c.borrow(c19, map[string]string{"C19.key-complete": "C02.prepared-rendered-by-writer", "C19.cache": "C02.prepared-rendered-by-writer"})
 	r.Rule("C02.prepared-bytes-copied", "the bytes of a prepared frame are copied out of the rendering connection's reused write buffer (same rule as C19.payload-copy)")
 	c.borrow(c19, map[string]string{"C19.payload-copy": "C02.prepared-bytes-copied"})
 	w.deflateTail("C02.rsv1")
